@@ -83,9 +83,23 @@ def restructure():
         deep = [i for i in its if len(i[2]) > 1]
         pool = deep if deep and draw(st.integers(0, 3)) else its
         start, end, parents = draw(st.sampled_from(pool))
-        op = draw(st.sampled_from(["dup", "dup", "del", "move"]))
+        op = draw(st.sampled_from(["dup", "dup", "del", "move", "transplant", "transplant"]))
         seg = bytes(b[start:end])
         delta = 0
+        if op == "transplant":
+            # a well-formed item of a valid type inside the wrong container (e.g. a transfer syntax sub-item in the
+            # user information item, an application context item inside a presentation context)
+            others = [i for i in its if i[2] != parents and not (i[0] <= start and end <= i[1]) and not (start <= i[0] and i[1] <= end)]
+            if not others:
+                return bytes(b), ["restructure-none"]
+            tgt = draw(st.sampled_from(others))
+            at = tgt[1] if draw(st.booleans()) else tgt[0]
+            b[at:at] = seg
+            for off, size in tgt[2]:
+                cur = int.from_bytes(b[off : off + size], "big") + len(seg)
+                if 0 <= cur < (1 << (8 * size)):
+                    b[off : off + size] = cur.to_bytes(size, "big")
+            return bytes(b), [f"restructure-transplant-{seg[0]:02x}-into-{'top' if len(tgt[2]) == 1 else 'sub'}"]
         if op == "dup":
             b[end:end] = seg
             delta = len(seg)
